@@ -479,9 +479,24 @@ fn xrefstm(driver: &Driver, seed: u64, n: u64, outside: bool) -> Stream {
             w = vec![w0 as u64, w1 as u64, w2 as u64];
             index = subs.iter().map(|s| (s.0, s.1.len() as u64)).collect();
             data = d;
+        } else if case < 6 {
+            // deterministic: rows of zero width (refused since the repair of D34, with or without entries,
+            // strict and tolerant), widths whose sum does not fit
+            let presets: [(&[u64], &[(u64, u64)], &[u8]); 6] = [
+                (&[0, 0, 0], &[(0, 2)], &[]),
+                (&[0, 0, 0], &[(0, 0)], &[]),
+                (&[0, 0, 0], &[(1, 3)], &[1, 2, 3]),
+                (&[0, 0, 0], &[], &[]),
+                (&[1, 0, 0], &[(0, 2)], &[1, 1]),
+                (&[0, 1, 0], &[(0, 9)], &[7, 8]),
+            ];
+            let (pw, pi, pd) = presets[case as usize];
+            w = pw.to_vec();
+            index = pi.to_vec();
+            data = pd.to_vec();
         } else {
             let nw = *rng.pick(&[3usize, 3, 3, 3, 2, 4]);
-            w = (0..nw).map(|_| *rng.pick(&[0u64, 1, 1, 2, 2, 3, 4, 8, 9])).collect();
+            w = (0..nw).map(|_| *rng.pick(&[0u64, 0, 1, 1, 2, 2, 3, 4, 8, 9])).collect();
             let nsub = rng.usize(3);
             index = (0..nsub).map(|_| (rng.below(size + 2), rng.below(6))).collect();
             let len = rng.usize(40);
